@@ -1,5 +1,7 @@
-(* Extraction of the C06 model to OCaml (ExtrOcamlBasic + ExtrOcamlString only; nat stays unary). *)
+(* Extraction of the C06 model to OCaml (ExtrOcamlBasic + ExtrOcamlString only; nat stays unary).
+   mrun = machine of the current code, srun = Spec; prun (machine of the code before the fix commits)
+   and shapes are used for diagnosis / input histograms only. *)
 From Coq Require Import Extraction ExtrOcamlBasic ExtrOcamlString.
-From Cb Require Import C06.Model C06.Fixed.
+From Cb Require Import C06.Model C06.Pinned.
 Extraction Language OCaml.
-Extraction "C06/c06_model.ml" mrun srun safe_prog shapes frun.
+Extraction "C06/c06_model.ml" mrun srun prun shapes.
